@@ -221,7 +221,7 @@ def run(ctx, B):
                 F = F + frac * (fre + 1j * fim) * np.exp(1j * phase)
             return F
         res = {}
-        for fl in ((2, 2, 2), (2, 0, 0), (0, 2, 0), (0, 0, 2), (2, 2, 0), (1, 0, 0)):
+        for fl in [(2, 2, 2), (2, 0, 0), (0, 2, 0), (0, 0, 2), (2, 2, 0), (1, 0, 0)] + [(a_, b_, c_) for a_ in (0, 1, 2) for b_ in (0, 2) for c_ in (0, 2) if (a_, b_, c_) not in ((2, 2, 2), (2, 0, 0), (0, 2, 0), (0, 0, 2), (2, 2, 0), (1, 0, 0))]:     # all 12 valid combinations
             rr = X.call("Crystal_F_H_StructureFactor_Partial", cidx, EE, hh[:, 0], hh[:, 1], hh[:, 2], dw, rel, np.full(nq, fl[0]), np.full(nq, fl[1]), np.full(nq, fl[2]))
             ctx.add(evaluations=nq)
             Fg = rr["v0"] + 1j * rr["v1"]; Fe = (rr["flags"] & F_ERR) != 0
@@ -288,7 +288,7 @@ def run(ctx, B):
     X.close()
     ctx.add(nontrivial=nt)
     ctx.cov["rule"] = ("38 built-in crystals + %d generated (incl. triclinic) cells x Miller [-%d,%d]^3 (d-spacing, Bragg) / [-%d,%d]^3 (structure factors) x %d energies x Debye {1,0.8} x "
-                       "relative angle {1,0.5} x 6 flag combinations + invalid flags; distinct_nontrivial = (identity, tuple) obligations with a defined reference" % (
+                       "relative angle {1,0.5,0} x all 12 valid flag combinations + invalid flags; distinct_nontrivial = (identity, tuple) obligations with a defined reference" % (
                            len(cells), M, M, 2 if quick else 3, 2 if quick else 3, len(Es)))
     ctx.assumptions += ["atomic factors are read through the public FF_Rayl/Fi/Fii of the same build (Atomic_Factors is checked against them on a sub-grid)",
                         "built-in cells are stored as single-precision literals: stored vs recomputed volume compared at rel. 1e-6",
